@@ -42,6 +42,9 @@ def gen(rnd):
     D["overlap"] = rnd.random() < 0.4  # conditions derived from shared inputs so that several are often true together
     # callees with validate_arguments: the argument (one bit per method, an input) must be 1 for the call to be accepted
     D["validated"] = [rnd.random() < 0.3 for _ in range(D["nm"])]
+    # one of the methods called from a branch contains a condition() of its own (a nonblocking one with one branch that calls a leaf method)
+    called_in_branches = sorted({j for b in D["br"] for j in b})
+    D["callee_cond"] = rnd.choice(called_in_branches) if called_in_branches and rnd.random() < 0.35 else None
     # a nested condition() inside one (non-default) branch, with its own conditions, callees and flags
     D["nested"] = None
     if rnd.random() < 0.35:
@@ -66,6 +69,7 @@ class Emit(Elaboratable):
         self.bw = [Signal(name=f"bw{i}") for i in range(len(D["br"]))]
         self.pw = Signal(name="pw")
         self.va = [Signal(name=f"va{i}") for i in range(D["nm"])]
+        self.kc, self.kw, self.leaf_ready = Signal(name="kc"), Signal(name="kw"), Signal(name="leaf_ready")
         N = D.get("nested")
         self.cond2 = [Signal(name=f"d{i}") for i in range(N["nb"])] if N else []
         self.bw2 = [Signal(name=f"bx{i}") for i in range(len(N["br"]))] if N else []
@@ -76,15 +80,29 @@ class Emit(Elaboratable):
         V = D.get("validated") or [False] * D["nm"]
         N = D.get("nested")
         ms = self.ms = [Method(name=f"M{i}", i=[("a", 1)] if V[i] else []) for i in range(D["nm"])]
+        KC = D.get("callee_cond")
+        self.leaf = leaf = Method(name="leaf")
+
+        @def_method(m, leaf, ready=self.leaf_ready)
+        def _():
+            pass
+
+        def callee_body(i):
+            if KC == i:
+                with condition(m, nonblocking=True) as kbranch:
+                    with kbranch(self.kc):
+                        m.d.comb += self.kw.eq(1)
+                        leaf(m)
+
         for i in range(D["nm"]):
             if V[i]:
                 @def_method(m, ms[i], ready=self.mr[i], validate_arguments=lambda a: a)
                 def _(a):
-                    pass
+                    callee_body(i)
             else:
                 @def_method(m, ms[i], ready=self.mr[i])
                 def _():
-                    pass
+                    callee_body(i)
 
         def call(j):
             if V[j]:
@@ -213,7 +231,7 @@ def run_one(rec, rnd, idx, max_cycles):
                 nested_bodies.append(b)
         by_name = {b.name: b for b in branch_bodies}
         va_in = [e.va[j] for j in range(D["nm"]) if V[j]]
-        inputs = e.cond + e.cond2 + e.mr + va_in + [e.pr, e.tr, e.cc] + ([e.cc2] if D["cond_call"] == "ifelif" else []) + e.orr
+        inputs = e.cond + e.cond2 + e.mr + va_in + [e.pr, e.tr, e.cc] + ([e.cc2] if D["cond_call"] == "ifelif" else []) + ([e.kc, e.leaf_ready] if D.get("callee_cond") is not None else []) + e.orr
         n = len(inputs)
         nb = D["nb"]
         tag = (f"nb{nb}d{int(D['default'])}nbk{int(D['nonblocking'])}p{int(D['priority'])}m{int(D['in_method'])}{D['cond_call']}ch{int(D['chain'])}s{int(D['share'])}"
@@ -246,6 +264,10 @@ def run_one(rec, rnd, idx, max_cycles):
                 mr = [ctx.get(s) for s in e.mr]
                 va = [ctx.get(s) for s in e.va]
                 eff = [bool(mr[j]) and (bool(va[j]) or not V[j]) for j in range(D["nm"])]  # ready and, if validated, called with an accepted argument
+                KC = D.get("callee_cond")
+                if KC is not None:
+                    # the callee's own nonblocking condition: when its condition holds, its branch (hence the leaf method) must be able to run
+                    eff[KC] = eff[KC] and (not ctx.get(e.kc) or bool(ctx.get(e.leaf_ready)))
                 bw = [ctx.get(s) for s in e.bw]
                 bw2 = [ctx.get(s) for s in e.bw2]
                 pw, prun = ctx.get(e.pw), ctx.get(e.P.run)
@@ -361,6 +383,17 @@ def run_one(rec, rnd, idx, max_cycles):
                     rec.count("cycles_with_true_condition_but_unready_callee")
                 if any(condv[i] and all(mr[j] for j in D["br"][i]) and not all(eff[j] for j in D["br"][i]) for i in range(len(D["br"]))):
                     rec.count("cycles_with_true_condition_but_rejected_argument")
+                if KC is not None:
+                    kw, krun, lrun = bool(ctx.get(e.kw)), bool(ctx.get(e.ms[KC].run)), bool(ctx.get(e.leaf.run))
+                    rec.check("C12:branch_runs_only_with_enclosing_body", not kw or krun, case=case, detail=dict(det, level="callee_condition", callee=KC, callee_run=int(krun)))
+                    rec.check("C12:branch_runs_only_if_its_condition_holds", not kw or bool(ctx.get(e.kc)), case=case, detail=dict(det, level="callee_condition"))
+                    rec.check("C12:body_without_branch_only_if_nonblocking_and_no_condition_holds", not krun or kw or not ctx.get(e.kc), case=case,
+                              detail=dict(det, level="callee_condition", callee=KC))
+                    rec.check("C04:method_runs_iff_called(consistency)", lrun == kw, case=case, detail=dict(det, method="leaf", branch_witness=int(kw)))
+                    if kw:
+                        rec.count("callee_condition_branch_runs")
+                    if ctx.get(e.kc) and not krun:
+                        rec.count("callee_condition_true_while_callee_idle")
                 for j in range(D["nm"]):
                     exp = any(bw[i] for i in range(len(D["br"])) if j in D["br"][i]) or (pw and j in D["outer_calls"]) or \
                         any(orun and j in calls for orun, calls in zip(oruns, D["outside"])) or (N and any(bw2[k] for k in range(len(N["br"])) if j in N["br"][k]))
@@ -394,7 +427,8 @@ def run_shard(spec, rec):
 RULE = ("generated condition() blocks: blocking/nonblocking x priority x with/without default, 1-4 branches with overlapping conditions, callees shared across "
         "branches and with 1-2 outside transactions, placed in a transaction or in a host method called plainly / under If / with enable_call / from two exclusive call sites of one transaction "
         "(If-Else, If-Elif), directly or through an intermediate method; 30% of the callees take an argument checked by validate_arguments (argument bit = input); 35% of the designs nest a second condition() "
-        "(1-2 branches, own flags) inside one branch, whose own callee list is empty in half of these; the netlist of every design is first checked for combinational "
+        "(1-2 branches, own flags) inside one branch, whose own callee list is empty in half of these; in 35% one of the methods called from a branch contains a condition() of its own "
+        "(one branch calling a leaf method); the netlist of every design is first checked for combinational "
         "cycles (Amaranth's build_netlist); all input valuations when <= 10 input bits, biased random otherwise; oracle: clauses (1)-(5) of DESIGN.md C12 on both levels "
         "(ready = ready and argument accepted), nested branch bodies run only with their enclosing body, the C04 consistency condition (a merged call without its enable "
         "shows as a method running without an active call) and the C07 consistency condition (with no outside transaction asking to run, body and caller run iff fully "
@@ -405,5 +439,6 @@ ASSUMPTIONS = ["with shared callees a skipped earlier admissible branch is excus
 MINIMA = {"quick": {"cycles": 20000, "cycles_with_two_or_more_conditions_true": 3000, "cycles_with_true_condition_but_unready_callee": 3000, "body_ran_without_branch": 200,
                     "priority_branch_runs": 1000, "branch_index_0_ran": 1000, "branch_index_3_ran": 20, "nested_branch_runs": 200, "designs_with_nested_condition": 20,
                     "branch_runs_calling_a_validated_method": 100, "cycles_with_true_condition_but_rejected_argument": 300, "unopposed_cycles": 5000,
-                    "cycles_with_host_not_called": 1000, "cycles_with_host_called_from_one_of_two_exclusive_sites": 1000, "distinct": 300},
+                    "cycles_with_host_not_called": 1000, "cycles_with_host_called_from_one_of_two_exclusive_sites": 1000, "callee_condition_branch_runs": 200,
+                    "callee_condition_true_while_callee_idle": 500, "distinct": 300},
           "thorough": {"cycles": 2000000, "distinct": 2000}}
